@@ -195,9 +195,15 @@ def run_case(ctx, mr, case):
                     ctx.diff('oracle', 'romfs-case-sensitive', dict(case, path=p.swapcase()), 'not found', 'found', 'case-sensitive mode resolved a case variant')
                 except RomFSFileNotFoundError:
                     pass
-        for _ in range(4):
+        files_ = [p for p, (k, _) in flat.items() if k == 'file']
+        for t in range(6):
             base = rng.choice([p for p, (k, _) in flat.items() if k == 'dir'])
             missing = base.rstrip('/') + '/' + 'nope' + str(rng.randrange(1000))
+            if t >= 4:
+                if not files_:
+                    continue
+                # a path that continues below a FILE names nothing either
+                missing = rng.choice(files_) + '/' + rng.choice(['x', 'nope', '0'])
             for call in (r.getinfo, r.openbin, r.listdir):
                 try:
                     call(missing)
